@@ -96,6 +96,12 @@ def pinned_cases(thorough):
     for bufs in ("max", "retry"):
         case("straddle-fork-70-" + bufs, fork, [1, 2], [1, 2, 3, 4, 5, 6], [ch(1), ch(20), ch(70), ch(70), ch(10), ch(10)],
              "R", bufs, layB=cut3)
+    # a long segment entered twice by find_needed_segments (from its head and through the mid-segment
+    # prior of a side branch that forks early): the second entry must still see the sample address
+    # near the top of the segment (regression for the fix of the re-entry livelock)
+    side = [[], [1], [1], [1]]
+    for pat in ("T", "D"):
+        case("reentry-long-segment-" + pat, side, [1], [1, 2, 3, 4], [ch(2), ch(220), ch(3), ch(1)], pat, "max")
     # > 100 commands per response, > 1 response per session, ping-pong of two diverged chains
     case("diverged-chains-130-170", [[], [1], [1]], [1, 2], [1, 3], [ch(1), ch(130), ch(170)], "R", "max", pingpong=True)
     case("diverged-chains-130-170-T", [[], [1], [1]], [1, 2], [1, 3], [ch(1), ch(130), ch(170)], "T", "retry", pingpong=True)
